@@ -25,7 +25,7 @@ FLOORS = {"quick": {"ser:compact": 300, "ser:general": 300, "zip:DEF": 150, "rec
 ADDED = {"kid", "epk", "iv", "tag", "p2s", "p2c", "skid"}
 
 case_strategy = st.fixed_dictionaries({
-    "plan": jp.plans(),
+    "plan": jp.plans(allow_headerless=True),
     "keymode": st.sampled_from(["attached", "attached", "keyset", "callable"]),
     "form": st.sampled_from(KEYFORMS),
 })
@@ -132,10 +132,24 @@ def run_case(case) -> dict:
         except Exception as e:
             detail = f"(and cannot be decrypted: {type(e).__name__})"
         return {f"C04:forbidden-combination-not-refused:{case['kind']}": f"encryption with algs {algs} enc {plan['enc']} succeeded {detail}"}
+    headerless = plan.get("headerless") and len(plan["recipients"]) > 1
     try:
-        tok = jp.jose_encrypt(plan, case["keymode"], case["form"])
+        tok = jp.jose_encrypt(plan, "attached" if headerless else case["keymode"], case["form"])
     except Exception as e:
         return {f"C04:encrypt-raises:{tag}:{exc_key(e)}": f"{type(e).__name__}: {e} (algs {algs}, enc {plan['enc']})"}
+    if headerless:
+        # recipients without a header of their own: there is no kid to resolve, so each recipient decrypts alone
+        for i in range(len(plan["recipients"])):
+            if plan["recipients"][i]["key"]["kty"] == "RSA" and any(a == "RSA1_5" for j, a in enumerate(algs) if j != i):
+                continue
+            try:
+                o2 = jp.jose_decrypt(copy.deepcopy(tok), plan, "one", case["form"], i)
+                if o2.plaintext != pt:
+                    f["C04:plaintext-differs:headerless-recipient"] = f"recipient {i} ({algs[i]}) decrypts different plaintext"
+            except Exception as e:
+                f[f"C04:headerless-recipient-cannot-decrypt:{exc_key(e)}"] = (f"{len(algs)} recipients without own headers ({algs}, alg in the {plan['place']} header): "
+                                                                            f"recipient {i} cannot decrypt: {type(e).__name__}: {e}")
+        return f
     try:
         obj = jp.jose_decrypt(copy.deepcopy(tok), plan, "all", case["form"])
     except Exception as e:
@@ -168,7 +182,7 @@ def run_shard(ctx, spec):
         n = len(plan["recipients"])
         ctx.case((jp.plan_label(plan), case["keymode"], case["form"], case.get("kind")),
                  cls=[f"ser:{plan['ser']}", f"enc:{plan['enc']}", f"zip:{plan['zip']}", f"recipients:{n if n < 3 else '3+'}",
-                      f"keymode:{case['keymode']}", f"place:{plan['place']}", f"pt:{jp.pt_class(bytes.fromhex(plan['plaintext_hex']))}"]
+                      f"keymode:{case['keymode']}", f"place:{plan['place']}", f"headerless:{bool(plan.get('headerless'))}", f"pt:{jp.pt_class(bytes.fromhex(plan['plaintext_hex']))}"]
                  + [f"alg:{r['alg']}" for r in plan["recipients"]] + (["forbidden", f"forbidden:{case['kind']}"] if case.get("kind") else []),
                  sample={"ser": plan["ser"], "enc": plan["enc"], "zip": plan["zip"], "algs": [r["alg"] for r in plan["recipients"]],
                          "protected": plan["protected"], "unprotected": plan["unprotected"], "aad": plan["aad_hex"],
